@@ -478,7 +478,7 @@ class AbsoluteSequence(AbstractSequence):
                              for n in range(len(channel_pairings_list))]
         channel_ids = [channel_pairings_list[i][0] for i in range(len(channel_pairings_list))]
 
-        has_next = len(channel_pairings_list) > 0
+        has_next = any(channel_cur_index[i] < channel_max_index[i] for i in range(len(channel_pairings_list)))
 
         while has_next:
             # Build list of next times for each channel
